@@ -66,6 +66,57 @@ Definition prtime (st : pstate) : pres (expr * pstate) :=
 Definition expect (st : pstate) (t : ttype) : pres pstate :=
   match expect_peek st t with Some st' => POK st' | None => err_peek E_unexpected st end.
 
+(* the registered prefix methods; [rec] is ParseExpression (the recursive call) *)
+Definition pprefix (rec : N -> pstate -> pres (expr * pstate)) (k : prefix_kind) (st : pstate)
+  : pres (expr * pstate) :=
+  match k with
+  | PK_ParseIdent => POK (EIdent (cur st), st)
+  | PK_ParseString => do v <- pstring st; POK (EString (cur st) v, st)
+  | PK_ParseLongString =>
+      do (o, s, c, v, st') <- plong st; POK (ELong o s c v, st')
+  | PK_ParseInteger => pinteger st
+  | PK_ParseFloat => pfloat st
+  | PK_ParseRTime => prtime st
+  | PK_ParseBoolean => POK (EBool (cur st), st)
+  | PK_ParsePrefixExpression =>
+      do (r, st') <- rec P_PREFIX (next st); POK (EPrefix (cur st) r, st')
+  | PK_ParseGroupedExpression =>
+      do (r, st') <- rec P_LOWEST (next st);
+      do st'' <- expect st' T_RIGHT_PAREN;
+      POK (EGroup (cur st) r (cur st''), st'')
+  | PK_ParseIfExpression =>
+      do st1 <- expect st T_LEFT_PAREN;
+      do (c, st2) <- rec P_LOWEST (next st1);
+      do st3 <- expect st2 T_COMMA;
+      do (t, st4) <- rec P_LOWEST (next st3);
+      do st5 <- expect st4 T_COMMA;
+      do (e, st6) <- rec P_LOWEST (next st5);
+      do st7 <- expect st6 T_RIGHT_PAREN;
+      POK (EIfExp (cur st) (cur st1) c (cur st3) t (cur st5) e (cur st7), st7)
+  end.
+
+(* the registered infix methods, entered with cur = the operator token (p.NextToken() done by
+   the loop); [rec] is ParseExpression, [recargs] ParseFunctionArgumentExpressions *)
+Definition pinfix (rec : N -> pstate -> pres (expr * pstate)) (recargs : pstate -> pres (args * pstate))
+  (k : infix_kind) (lft : expr) (st1 : pstate) : pres (expr * pstate) :=
+  match k with
+  | IK_ParseInfixExpression =>
+      do (r, st') <- rec (prec_of (cur st1)) (next st1);
+      POK (EInfix lft (cur st1) false r, st')
+  | IK_ParseInfixStringConcatExpression explicit =>
+      if explicit then
+        do (r, st') <- rec (prec_of (cur st1)) (next st1);
+        POK (EInfix lft (cur st1) true r, st')
+      else
+        do (r, st') <- rec (prec_of (cur st1)) st1;
+        POK (EConcat lft r, st')
+  | IK_ParseFunctionCallExpression =>
+      match lft with
+      | EIdent f => do (a, st') <- recargs st1; POK (ECall f (cur st1) a (cur st'), st')
+      | _ => PErrNoTok      (* errors.New("Function name must be IDENT") *)
+      end
+  end.
+
 Fixpoint pexpr (n : nat) (prec : N) (st : pstate) {struct n} : pres (expr * pstate) :=
   match n with
   | O => PFuel
@@ -73,32 +124,7 @@ Fixpoint pexpr (n : nat) (prec : N) (st : pstate) {struct n} : pres (expr * psta
     match assoc (typ (cur st)) prefix_parsers with
     | None => err_cur E_undef_prefix st
     | Some k =>
-      do (lft, st1) <-
-        match k with
-        | PK_ParseIdent => POK (EIdent (cur st), st)
-        | PK_ParseString => do v <- pstring st; POK (EString (cur st) v, st)
-        | PK_ParseLongString =>
-            do (o, s, c, v, st') <- plong st; POK (ELong o s c v, st')
-        | PK_ParseInteger => pinteger st
-        | PK_ParseFloat => pfloat st
-        | PK_ParseRTime => prtime st
-        | PK_ParseBoolean => POK (EBool (cur st), st)
-        | PK_ParsePrefixExpression =>
-            do (r, st') <- pexpr n' P_PREFIX (next st); POK (EPrefix (cur st) r, st')
-        | PK_ParseGroupedExpression =>
-            do (r, st') <- pexpr n' P_LOWEST (next st);
-            do st'' <- expect st' T_RIGHT_PAREN;
-            POK (EGroup (cur st) r (cur st''), st'')
-        | PK_ParseIfExpression =>
-            do st1 <- expect st T_LEFT_PAREN;
-            do (c, st2) <- pexpr n' P_LOWEST (next st1);
-            do st3 <- expect st2 T_COMMA;
-            do (t, st4) <- pexpr n' P_LOWEST (next st3);
-            do st5 <- expect st4 T_COMMA;
-            do (e, st6) <- pexpr n' P_LOWEST (next st5);
-            do st7 <- expect st6 T_RIGHT_PAREN;
-            POK (EIfExp (cur st) (cur st1) c (cur st3) t (cur st5) e (cur st7), st7)
-        end;
+      do (lft, st1) <- pprefix (pexpr n') k st;
       ploop n' prec lft st1
     end
   end
@@ -117,25 +143,7 @@ with ploop (n : nat) (prec : N) (lft : expr) (st : pstate) {struct n} : pres (ex
         | None => POK (lft, st)
         end
       | Some k =>
-        let st1 := next st in
-        do (l2, st2) <-
-          match k with
-          | IK_ParseInfixExpression =>
-              do (r, st') <- pexpr n' (prec_of (cur st1)) (next st1);
-              POK (EInfix lft (cur st1) false r, st')
-          | IK_ParseInfixStringConcatExpression explicit =>
-              if explicit then
-                do (r, st') <- pexpr n' (prec_of (cur st1)) (next st1);
-                POK (EInfix lft (cur st1) true r, st')
-              else
-                do (r, st') <- pexpr n' (prec_of (cur st1)) st1;
-                POK (EConcat lft r, st')
-          | IK_ParseFunctionCallExpression =>
-              match lft with
-              | EIdent f => do (a, st') <- pargs n' st1; POK (ECall f (cur st1) a (cur st'), st')
-              | _ => PErrNoTok      (* errors.New("Function name must be IDENT") *)
-              end
-          end;
+        do (l2, st2) <- pinfix (pexpr n') (pargs n') k lft (next st);
         ploop n' prec l2 st2
       end
   end
